@@ -12,7 +12,7 @@ import ast
 import copy as _copy
 
 from .. import nullness
-from ..cfg import EXIT, Assume
+from ..cfg import ENTRY, EXIT, Assume
 from ..core import (call_name, const_value, dotted, names_loaded, params,
                     param_default, target_names, u, walk_expr, walk_local)
 from ..normal import IMPURE_NP, PURE_FUNCS, PURE_METHODS
@@ -83,6 +83,11 @@ EXPLANATION = (
     'constructor reads nested rows / a flat sequence of scalars / an empty input / flat data plus lengths each as such (which '
     'statement sets self._data and self.lengths in each case); (D6) shape[1] is the common row length exactly when all rows are '
     'equally long and the element width is reported exactly for array elements. '
+    'Sixth wave: (D7) every value stored into the row container self._array, in every method of the class, is traced through all '
+    'reaching definitions, conditional arms and slot-wise fills back to where its memory comes from: it must be a view of the flat '
+    'data self._data (reshape, basic slices, partition_list, a sequence / object array of those) or the empty container; a container '
+    'built from a parameter without going through the flat data, or behind a copy-making step, is a second memory (violation: reads '
+    'through a[i] / iteration and through a[i, j] / slices / flatten no longer see the same rows); an unfollowed step gives incomplete. '
     'Equality with the list-of-rows model for every index expression is not '
     'decided.')
 
@@ -2774,6 +2779,18 @@ def row_container(ck, mod, rule, quals):
     return total
 
 
+def _data_aliases_resolved(mod, fn, fi, v, DATA):
+    """`v` with every local alias of the flat data (see _Provenance.alias_of_root) spelled as the slot itself."""
+    try:
+        P = _Provenance(mod, fn, fi, DATA)
+        hits = [n for n in ast.walk(v) if isinstance(n, ast.Name) and isinstance(n.ctx, ast.Load) and P.alias_of_root(n)]
+        for n in hits:
+            v = _replace_node(v, n, ast.copy_location(_copy.deepcopy(_parse(DATA)), n))
+    except Exception:
+        pass
+    return v
+
+
 def _trailing_shape(v, DATA):
     """reshape arguments of `<DATA>.reshape(...)`: (leading shape entries, element dimensions kept?)"""
     args = list(v.args)
@@ -2809,7 +2826,7 @@ def trailing_dims(ck, mod, rule):
     for s in walk_local(fn):
         if not (isinstance(s, ast.Assign) and any(u(t) == ARR for t in s.targets)):
             continue
-        v = _xc(fi, s.value)
+        v = canon(_data_aliases_resolved(mod, fn, fi, _expand(fi, s.value), DATA))
         if not (isinstance(v, ast.Call) and isinstance(v.func, ast.Attribute) and v.func.attr == 'reshape' and u(v.func.value) == DATA):
             continue
         n += 1
@@ -2834,6 +2851,348 @@ def trailing_dims(ck, mod, rule):
     return n
 
 
+# Sixth wave: ONE memory behind both representations.  `_data` (read by a[i, j], 2-D slices, paired indices, masks,
+# flatten, dtype) and `_array` (read by a[i], row slices, iteration, len) are two representations of the same rows; the
+# class keeps them equal by making the row container a VIEW of the flat data (reshape / partition into slices), so
+# a write through either is seen by both.  Necessary condition: every value stored into the row container is derived
+# from the flat data by view-preserving steps (or is the empty container).  A container taken from somewhere else -
+# the caller's input, a copy - is a second memory: b[i][j] = v (or a later change of the caller's rows) shows in a[i]
+# and iteration but not in a[i, j] / a[:, j] / flatten(); rows of another dtype than the concatenation are read back
+# with a[i].dtype != a.dtype.
+
+_VIEW_METHODS = {'reshape', 'view', 'ravel', 'squeeze', 'swapaxes', 'transpose'}
+_COPY_METHODS = {'copy', 'astype', 'tolist', 'flatten', 'repeat', 'take', 'compress'}
+_COPY_FUNCS = {'np.copy', 'copy.copy', 'copy.deepcopy', 'np.concatenate', 'np.hstack', 'np.vstack', 'np.stack', 'np.repeat', 'np.tile',
+               'np.take', 'np.ascontiguousarray', 'np.array', 'np.asarray', 'np.asanyarray', 'list', 'tuple'}
+_SEQ_OF = ('np.array', 'np.asarray', 'np.asanyarray', 'list', 'tuple')
+_BUILTIN_NAMES = set(dir(__import__('builtins')))
+_FRESH = {'np.empty', 'np.zeros', 'np.ones', 'np.full', 'np.empty_like', 'np.zeros_like'}
+
+
+def _basic_index(ix):
+    """True: basic indexing (a view) / False: advanced (a copy) / None: cannot tell from the syntax."""
+    items = ix.elts if isinstance(ix, ast.Tuple) else [ix]
+    out = True
+    for it in items:
+        if isinstance(it, ast.Slice) or (isinstance(it, ast.Constant) and (it.value is None or it.value is Ellipsis or
+                                                                           (isinstance(it.value, int) and not isinstance(it.value, bool)))):
+            continue
+        if isinstance(it, (ast.List, ast.ListComp, ast.Compare)):
+            return False
+        out = None
+    return out
+
+
+def _worst(kinds):
+    """Combine provenance verdicts of alternatives / parts: (kind, witness)."""
+    kinds = [k for k in kinds if k is not None]
+    for want in ('foreign', 'copy', 'unknown', 'fresh', 'view', 'empty', 'neutral'):
+        for k in kinds:
+            if k[0] == want:
+                return k
+    return ('neutral', None)
+
+
+class _Provenance:
+    """Where the memory of a value comes from, relative to ONE designated buffer (the text `root`, e.g. `self._data`):
+    'view' (reached from the buffer by view-preserving steps: basic slices, reshape, partition into slices, a sequence /
+    object array of such views), 'copy' (a recognised copy-making step applied to the buffer), 'foreign' (built from a
+    parameter of the function without touching the buffer), 'empty' (a container without entries), 'neutral' (constants,
+    sizes), 'unknown'.  Names are followed through ALL their reaching definitions (no purity requirement: this is about
+    where memory comes from, not about values), a fresh object container through the values stored into its slots."""
+
+    def __init__(self, mod, fn, fi, root, view_helpers=('partition_list',)):
+        self.mod, self.fn, self.fi, self.root = mod, fn, fi, root
+        self.selfn = root.split('.')[0]
+        self.stored = set(params(fn)) | {n.id for n in walk_local(fn) if isinstance(n, ast.Name) and isinstance(n.ctx, ast.Store)}
+        self.view_helpers = view_helpers
+        self.bound = set()
+
+    def _rebound_between(self, site, use):
+        """Is the designated buffer rebound on a path definition -> use?"""
+        for s in walk_local(self.fn):
+            if isinstance(s, ast.Assign) and any(u(t) == self.root for t in s.targets) and s is not site and s is not use:
+                try:
+                    if self.fi.cfg.reachable(site, s, avoiding=[use]) and self.fi.cfg.reachable(s, use, avoiding=[site]):
+                        return True
+                except Exception:
+                    return True
+        return False
+
+    def of(self, e, use, depth=8):
+        if depth <= 0:
+            return ('unknown', e)
+        if isinstance(e, ast.IfExp):
+            return _worst([self.of(e.body, use, depth - 1), self.of(e.orelse, use, depth - 1)])
+        if isinstance(e, ast.Constant):
+            return ('neutral', e)
+        if isinstance(e, ast.Attribute) and u(e) == self.root:
+            return ('view', e)
+        if isinstance(e, ast.Attribute) and e.attr == 'T':
+            return self.of(e.value, use, depth - 1)
+        if isinstance(e, ast.Attribute):
+            # shape / size / dtype ... of anything: no memory; another slot of self: unknown
+            if e.attr in ('shape', 'size', 'ndim', 'dtype', 'lengths', 'starts'):
+                return ('neutral', e)
+            if isinstance(e.value, ast.Name) and e.value.id == self.selfn:
+                return ('unknown', e)
+            k = self.of(e.value, use, depth - 1)
+            return k if k[0] == 'foreign' else ('unknown', e)
+        if isinstance(e, ast.Name):
+            if e.id in self.bound or (e.id in _BUILTIN_NAMES and e.id not in self.stored):
+                return ('neutral', e)
+            if e.id == self.selfn:
+                return ('unknown', e)
+            return self.of_name(e, use, depth)
+        if isinstance(e, (ast.List, ast.Tuple)):
+            if not e.elts:
+                return ('empty', e)
+            return _worst([self.of(x, use, depth - 1) for x in e.elts])
+        if isinstance(e, (ast.ListComp, ast.GeneratorExp)):
+            saved = set(self.bound)
+            its = []
+            for g in e.generators:
+                its.append(self.of(g.iter, use, depth - 1))
+                self.bound |= {t.id for t in ast.walk(g.target) if isinstance(t, ast.Name)}
+            k = self.of(e.elt, use, depth - 1)
+            self.bound = saved
+            if k[0] == 'neutral':
+                # the elements are the loop variables themselves / computed from them: they carry the memory of the iterables
+                k = _worst(its) if any(isinstance(n, ast.Name) and n.id not in saved for n in ast.walk(e.elt)) else k
+            return k
+        if isinstance(e, ast.Subscript):
+            k = self.of(e.value, use, depth - 1)
+            if k[0] != 'view':
+                return k
+            b = _basic_index(e.slice)
+            return k if b else (('copy', e) if b is False else ('unknown', e))
+        if isinstance(e, ast.Starred):
+            return self.of(e.value, use, depth - 1)
+        if isinstance(e, ast.Call):
+            cn = call_name(e) or ''
+            args = list(e.args) + [k.value for k in e.keywords if k.arg not in ('dtype', 'copy', 'order', 'ndmin', 'subok')]
+            if isinstance(e.func, ast.Attribute) and not cn.startswith(('np.', 'numpy.', 'copy.', 'itertools.')):
+                recv = self.of(e.func.value, use, depth - 1)
+                if recv[0] in ('view', 'copy', 'foreign', 'unknown'):
+                    if e.func.attr in _VIEW_METHODS:
+                        return recv
+                    if e.func.attr in _COPY_METHODS and recv[0] == 'view':
+                        return ('copy', e)
+                    return recv if recv[0] != 'view' else ('unknown', e)
+            if cn.split('.')[-1] in self.view_helpers and e.args:
+                return self.of(e.args[0], use, depth - 1)
+            if cn in ('enumerate', 'zip', 'reversed', 'iter', 'itertools.chain') and e.args:
+                # the items carry the memory of the iterated sequences; which component is used is not tracked: mixed -> unknown
+                parts = [k for k in (self.of(a, use, depth - 1) for a in e.args) if k[0] != 'neutral']
+                if not parts:
+                    return ('neutral', e)
+                return parts[0] if len({k[0] for k in parts}) == 1 else ('unknown', e)
+            if cn in _FRESH:
+                n0 = const_value(e.args[0], None) if e.args else None
+                return ('empty', e) if n0 == 0 or (isinstance(e.args[0] if e.args else None, (ast.Tuple, ast.List)) and
+                                                   e.args[0].elts and const_value(e.args[0].elts[0], None) == 0) else ('fresh', e)
+            if cn in _SEQ_OF and e.args:
+                inner = e.args[0]
+                k = self.of(inner, use, depth - 1)
+                if k[0] != 'view':
+                    return k
+                # a python sequence of views -> container of views; an ndarray view handed to a copying constructor -> copy
+                if self._is_sequence(inner, use):
+                    return k
+                if cn in ('np.asarray', 'np.asanyarray') and not any(kw.arg == 'dtype' for kw in e.keywords):
+                    return k
+                cp = next((kw.value for kw in e.keywords if kw.arg == 'copy'), None)
+                if cn == 'np.array' and cp is not None and const_value(cp, None) is False:
+                    return k
+                if not self._is_one_array(inner):
+                    return ('unknown', e)          # sequence or array? (a name bound on several paths, a helper)
+                return ('copy', e) if cp is None or const_value(cp, None) is True else ('unknown', e)
+            parts = [self.of(a, use, depth - 1) for a in args]
+            w = _worst(parts)
+            if w[0] == 'view':
+                return ('copy', e) if cn in _COPY_FUNCS else ('unknown', e)
+            if w[0] in ('copy', 'unknown', 'foreign'):
+                return w
+            return ('neutral', e)
+        if isinstance(e, (ast.BinOp, ast.UnaryOp, ast.Compare, ast.BoolOp)):
+            w = _worst([self.of(c, use, depth - 1) for c in ast.iter_child_nodes(e) if isinstance(c, ast.expr)])
+            return ('copy', e) if w[0] == 'view' else w
+        return ('unknown', e)
+
+    def _is_sequence(self, e, use):
+        """The expression is a python sequence of row views (not one ndarray): a display, a comprehension, the
+        partitioning helper, list(...) of those - or a name bound to one."""
+        for _ in range(6):
+            if isinstance(e, ast.Name) and e.id not in self.bound:
+                try:
+                    e2 = self.fi.resolve(getattr(e, '_orig', e))
+                except Exception:
+                    return False
+                if e2 is e:
+                    acc = _accumulated_list(self.fi, getattr(e, '_orig', e)) if isinstance(getattr(e, '_orig', e), ast.Name) else None
+                    return acc is not None
+                e = e2
+                continue
+            break
+        if isinstance(e, (ast.List, ast.Tuple, ast.ListComp, ast.GeneratorExp)):
+            return True
+        if isinstance(e, ast.Call):
+            cn = call_name(e) or ''
+            if cn.split('.')[-1] in self.view_helpers or cn in ('list', 'tuple'):
+                return True
+        return False
+
+    def _is_one_array(self, e):
+        """The expression certainly denotes ONE ndarray sharing the buffer (not a python sequence of views): the buffer,
+        an alias of it, a basic slice / reshape of such."""
+        for _ in range(6):
+            if isinstance(e, ast.Name):
+                if self.alias_of_root(e):
+                    return True
+                try:
+                    e2 = self.fi.resolve(getattr(e, '_orig', e))
+                except Exception:
+                    return False
+                if e2 is e or isinstance(e2, ast.Name) and e2.id == e.id:
+                    return False
+                e = e2
+            elif isinstance(e, ast.Subscript):
+                e = e.value
+            elif isinstance(e, ast.Call) and isinstance(e.func, ast.Attribute) and e.func.attr in _VIEW_METHODS:
+                e = e.func.value
+            else:
+                break
+        return isinstance(e, ast.Attribute) and u(e) == self.root
+
+    def alias_of_root(self, e, use=None):
+        """A local alias of the buffer: every definition of the name that reaches the use is handed to the buffer
+        (`ROOT = name`, or `ROOT = name = <expr>`) on every path definition -> use, the buffer not rebound afterwards
+        (an UNBOUND path is a NameError, not a value)."""
+        if not isinstance(e, ast.Name):
+            return False
+        o = getattr(e, '_orig', e)
+        try:
+            defs = self.fi.defs_of_use(o)
+            use_stmt = self.fi.stmt(o) or use
+            aliases = [s for s in walk_local(self.fn) if isinstance(s, ast.Assign) and any(u(t) == self.root for t in s.targets)]
+            sites = [d for d in defs if d != 'UNBOUND']
+            if not (aliases and sites and use_stmt is not None):
+                return False
+            for d in sites:
+                if d == 'PARAM':
+                    # the parameter itself was made the buffer (`ROOT = param`) on every path entry -> use
+                    through = [s for s in aliases if isinstance(s.value, ast.Name) and s.value.id == e.id and
+                               self.fi.defs_of_use(s.value) == {'PARAM'} and not self._rebound_between(s, use_stmt)]
+                    if not through or self.fi.cfg.reachable(ENTRY, use_stmt, avoiding=through):
+                        return False
+                    continue
+                if d in aliases and any(isinstance(t, ast.Name) and t.id == e.id for t in d.targets):
+                    if self._rebound_between(d, use_stmt):
+                        return False
+                    continue
+                through = [s for s in aliases if isinstance(s.value, ast.Name) and s.value.id == e.id and
+                           self.fi.defs_of_use(s.value) == {d} and not self._rebound_between(s, use_stmt)]
+                if not through or self.fi.cfg.reachable(d, use_stmt, avoiding=through):
+                    return False
+            return True
+        except Exception:
+            return False
+
+    def of_name(self, e, use, depth):
+        o = getattr(e, '_orig', e)
+        try:
+            defs = self.fi.defs_of_use(o)
+        except Exception:
+            return ('unknown', e)
+        if not defs or 'UNBOUND' in defs and len(defs) == 1:
+            return ('unknown', e)
+        if self.alias_of_root(e, use):
+            return ('view', e)
+        out = []
+        for site in defs:
+            if site == 'UNBOUND':
+                continue
+            if site == 'PARAM':
+                out.append(('foreign', e))
+                continue
+            v = self.fi.def_value(site, e.id)
+            if v is None:
+                if isinstance(site, ast.For):
+                    # a loop variable carries the memory of what is iterated
+                    out.append(self.of(site.iter, site, depth - 1))
+                    continue
+                out.append(('unknown', e))
+                continue
+            if self._rebound_between(site, use):
+                out.append(('unknown', e))
+                continue
+            k = self.of(v, site, depth - 1)
+            stores = [s for s in self.fi._mutated_in_place(e.id)]
+            if k[0] in ('fresh', 'empty') and stores:
+                # a fresh container filled slot by slot / by append: the memory of what is put into it
+                put = []
+                for s in stores:
+                    if isinstance(s, ast.Assign) and all(isinstance(t, ast.Subscript) and isinstance(t.value, ast.Name) and t.value.id == e.id
+                                                         for t in s.targets):
+                        put.append(self.of(s.value, s, depth - 1))
+                    elif isinstance(s, ast.Expr) and _is_append(s) and isinstance(s.value, ast.Call) and s.value.args:
+                        put.append(self.of(s.value.args[0], s, depth - 1))
+                    else:
+                        put.append(('unknown', s))
+                k = _worst(put) if put else k
+                if k[0] == 'neutral':
+                    k = ('unknown', e)
+            elif stores and k[0] == 'view':
+                pass        # writing into a view of the buffer writes the buffer
+            elif stores:
+                k = k if k[0] in ('foreign', 'copy') else ('unknown', e)
+            out.append(k)
+        return _worst(out)
+
+
+def row_view(ck, mod, rule):
+    """Every store into the row container `self._array`, in every method of the class, binds a view of the flat
+    data `self._data` (or the empty container)."""
+    n = 0
+    for q, fn in sorted(mod.functions.items()):
+        if not q.startswith(CLS + '.') or q.count('.') != 1:
+            continue
+        ps = params(fn)
+        if not ps:
+            continue
+        ARR, DATA = '%s._array' % ps[0], '%s._data' % ps[0]
+        stores = [s for s in walk_local(fn) if isinstance(s, ast.Assign) and any(u(t) == ARR for t in s.targets)]
+        if not stores:
+            continue
+        fi = finfo(mod, fn)
+        P = _Provenance(mod, fn, fi, DATA)
+        for s in stores:
+            n += 1
+            try:
+                kind, wit = P.of(s.value, s)
+            except Exception as ex:          # an engine limitation must not become a verdict
+                ck.missing(rule, '%s: provenance of %s not computed (%r)' % (q, u(s)[:80], ex))
+                continue
+            if kind in ('view', 'empty'):
+                ck.ok(rule, mod, s, '%s: %s' % (q, u(s)[:100]),
+                      'the row container is a view of the flat data' if kind == 'view' else 'the container without rows')
+            elif kind in ('foreign', 'copy'):
+                what = u(wit)[:80] if isinstance(wit, ast.AST) else '?'
+                ck.bad(rule, mod, s, q, 'row container bound to memory other than the flat data',
+                       '%s stores `%s` into %s: %s.  The row container (read by a[i], row slices, iteration) and the flat data (read by '
+                       'a[i, j], 2-D slices, paired indices, masks, flatten, dtype) must be ONE memory - the container a view of %s '
+                       '(reshape / partition into slices): otherwise a write through a row view b[i][j] = v, or a later change of the '
+                       'caller\'s rows, shows in b[i] and iteration but not in b[i, j] / b[:, j] / b.flatten(), and rows of a dtype other '
+                       'than that of the concatenation are read back with a[i].dtype != a.dtype'
+                       % (q, what, ARR, 'a value built from a parameter without going through the flat data' if kind == 'foreign'
+                          else 'a copy-making step detaches it from the flat data', DATA))
+            else:
+                ck.missing(rule, '%s: cannot tell whether %s is a view of the flat data (%s)' % (
+                    q, u(s)[:100], u(wit)[:60] if isinstance(wit, ast.AST) else kind))
+    ck.floor(rule, n, 3, 'stores into the row container')
+    return n
+
+
 def d7_constructor_and_lists(ck, mod, container=True):
     """Rectangular fast path of the constructor and the row x column product
     used for (rows, column-list) indices."""
@@ -2853,7 +3212,7 @@ def d7_constructor_and_lists(ck, mod, container=True):
     for s in walk_local(fn):
         if not (isinstance(s, ast.Assign) and any(u(t) == ARR for t in s.targets)):
             continue
-        v = _xc(fi, s.value)
+        v = canon(_data_aliases_resolved(mod, fn, fi, _expand(fi, s.value), DATA))
         if not (isinstance(v, ast.Call) and isinstance(v.func, ast.Attribute) and v.func.attr == 'reshape' and u(v.func.value) == DATA):
             continue
         n += 1
@@ -4162,4 +4521,5 @@ def check(ck):
     d5_index_dtype(ck, mod)
     init_cases(ck, mod)
     shape_cases(ck, mod)
+    row_view(ck, mod, 'C05.D7.row-view')
     return EXPLANATION
